@@ -7,6 +7,7 @@ The harness modules are pulled into /repo by one-line `#[cfg(kani)] #[path = "..
 Labels: a harness is `complete` only if no loop depends on a symbolic value and the symbolic inputs range
 over their whole (valid) type; everything else is `bounded` with the bound stated in specs/properties.json.
 """
+import concurrent.futures as cf
 import json
 import os
 import re
@@ -22,6 +23,7 @@ CMD_DESCR = ("CARGO_NET_OFFLINE=true cargo kani -p <crate> -Z function-contracts
              "(cwd=/repo, --target-dir /verif/build/kani/<crate>)")
 PKG = {"rustemo": "rustemo", "compiler": "rustemo-compiler"}
 DEFAULT_TIMEOUT = int(os.environ.get("VERIF_KANI_TIMEOUT", "1500"))
+MAX_JOBS = int(os.environ.get("VERIF_KANI_JOBS", "4"))
 
 HARNESS_RE = re.compile(r"^(?:Thread \d+: )?Checking harness ([\w:]+)\.\.\.", re.M)
 
@@ -107,8 +109,14 @@ def cargo_kani(crate, harnesses, extra=None, timeout=DEFAULT_TIMEOUT, jobs=None)
         cmd += ["--harness", h]
     cmd += extra or []
     t0 = time.time()
+
+    def limit():
+        # a runaway CBMC (SmallVec/Arc/String drop glue) can take 50+ GB: cap each process, it then fails alone as "undecided"
+        import resource
+        cap = int(os.environ.get("VERIF_KANI_MEM_GB", "13")) * 1024 ** 3
+        resource.setrlimit(resource.RLIMIT_AS, (cap, cap))
     try:
-        p = subprocess.run(cmd, cwd=REPO, env=env, capture_output=True, text=True, timeout=timeout)
+        p = subprocess.run(cmd, cwd=REPO, env=env, capture_output=True, text=True, timeout=timeout, preexec_fn=limit)
         out, rc = p.stdout + "\n" + p.stderr, p.returncode
     except subprocess.TimeoutExpired as e:
         so = e.stdout.decode() if isinstance(e.stdout, bytes) else (e.stdout or "")
@@ -133,14 +141,29 @@ def run_harnesses(obls, tier="quick"):
         by_crate.setdefault(o["crate"], []).append(o)
     for crate, os_ in by_crate.items():
         names = [o["harness"] for o in os_]
-        run = cargo_kani(crate, names, jobs=min(8, len(names)))
+        run = cargo_kani(crate, names, jobs=min(MAX_JOBS, len(names)))
         parsed = parse_output(run["out"])
         compile_err = re.search(r"^error(\[E\d+\])?:", run["out"], re.M) and not parsed
+        # phase 2: every harness that did not come back SUCCESSFUL is re-run alone with the regular (per-check) output
+        # and concrete playback, so that a FAILED verdict can be classified: failing check / unwinding / cover / memory.
+        redo = [h for h in names if h in parsed and parsed[h]["verdict"] == "FAILED"]
+        detail = {}
+        if redo and not compile_err:
+            with cf.ThreadPoolExecutor(max_workers=MAX_JOBS) as ex:
+                futs = {h: ex.submit(cargo_kani, crate, [h], ["-Z", "concrete-playback", "--concrete-playback=print"]) for h in redo}
+                for h, f in futs.items():
+                    r2 = f.result()
+                    p2 = parse_output(r2["out"]).get(h)
+                    if p2:
+                        p2["oom"] = "out of memory" in r2["out"] or "CBMC failed with status" in r2["out"]
+                        p2["timeout"] = r2["rc"] == 124
+                        detail[h] = p2
         for o in os_:
             h = o["harness"]
-            pr = parsed.get(h)
+            pr = detail.get(h) or parsed.get(h)
             if pr is None or pr["verdict"] is None:
-                reason = "timeout" if run["rc"] == 124 else ("compile error under cfg(kani)" if compile_err else "no verdict")
+                reason = ("out of memory (per-process cap)" if "out of memory" in run["out"] else "timeout" if run["rc"] == 124
+                          else ("compile error under cfg(kani)" if compile_err else "no verdict"))
                 results[h] = {"status": "undecided", "reason": reason, "tail": run["out"][-3000:], "wall_s": run["wall_s"]}
                 continue
             r = dict(pr)
@@ -165,25 +188,25 @@ def run_harnesses(obls, tier="quick"):
                 else:
                     r["status"] = "ok"
             else:
-                real = [c for c in hard if c not in unwinding]
-                if real:
+                real = [c for c in hard if c not in unwinding and c["check"] != "summary"] or [c for c in hard if c not in unwinding]
+                if pr.get("oom") or pr.get("timeout"):
+                    r["status"] = "undecided"
+                    r["reason"] = "CBMC ran out of memory (per-process cap) or time on the detailed re-run"
+                elif real:
                     r["status"] = "failed"
                     r["failed_checks"] = real
+                    if pr.get("concrete_test"):
+                        r["concrete_test"] = {"crate": crate, "harness": h, "test": pr["concrete_test"]}
                 elif unwinding:
                     r["status"] = "undecided"
                     r["reason"] = "unwinding assertion failed: the stated bound is too small for this code"
+                elif pr["dead_covers"]:
+                    r["status"] = "undecided"
+                    r["reason"] = "vacuity guard: cover not satisfiable: " + "; ".join(c["description"] for c in pr["dead_covers"])
                 else:
                     r["status"] = "undecided"
                     r["reason"] = "FAILED without a definite failing check (" + ", ".join(c["description"] for c in undetermined)[:300] + ")"
             results[h] = r
-        # concrete playback for failed harnesses (second run, only on failure)
-        failed = [o["harness"] for o in os_ if results[o["harness"]]["status"] == "failed"]
-        if failed:
-            run2 = cargo_kani(crate, failed, extra=["-Z", "concrete-playback", "--concrete-playback=print"], jobs=min(8, len(failed)))
-            p2 = parse_output(run2["out"])
-            for h in failed:
-                if h in p2 and p2[h].get("concrete_test"):
-                    results[h]["concrete_test"] = {"crate": crate, "harness": h, "test": p2[h]["concrete_test"]}
     return results
 
 
